@@ -2,6 +2,7 @@ package eddsa
 
 import (
 	"errors"
+	"math/big"
 
 	"github.com/consensys/gnark/logger"
 	"github.com/consensys/gnark/std/hash"
@@ -39,6 +40,10 @@ type Signature struct {
 // Verify verifies an eddsa signature using MiMC hash function
 // cf https://en.wikipedia.org/wiki/EdDSA
 func Verify(curve twistededwards.Curve, sig Signature, msg frontend.Variable, pubKey PublicKey, hash hash.FieldHasher) error {
+
+	// S must be canonical, i.e. smaller than the order of the base point (as the native
+	// verifier requires): otherwise (R, S + order) verifies as well (signature malleability)
+	curve.API().AssertIsLessOrEqual(sig.S, new(big.Int).Sub(curve.Params().Order, big.NewInt(1)))
 
 	// compute H(R, A, M)
 	hash.Write(sig.R.X)
